@@ -25,7 +25,7 @@ def _load():
     return load_sym("bluebonnet.flow.flowproperties", pd=pd_shim.PD, **SS.rebind())
 
 
-def _table(n, cols, frame=False, pp0_zero=False):
+def _table(n, cols, frame=False, pp0_zero=False, descending=False):
     """Symbolic table: pressure strictly increasing, pseudopressure strictly increasing (>= 0 or > 0),
     other columns positive."""
     dom = []
@@ -45,6 +45,9 @@ def _table(n, cols, frame=False, pp0_zero=False):
         else:
             vals = [fresh(f"{c.replace('-', '_')}{k}", pos=True) for k in range(n)]
         tab[c] = SymArray(vals, "f8")
+    if descending:
+        # the same table listed from high pressure to low (a lab report's order): every lookup in the wrapper sorts
+        tab = {k: SymArray(list(reversed(v.d)), "f8") for k, v in tab.items()}
     if frame:
         # frame == "labelled": a DataFrame whose index labels are n-1..0 in row order (a table put in order with sort_values)
         f = pd_shim.SymFrame(index=list(range(n - 1, -1, -1)) if frame == "labelled" else None)
@@ -99,7 +102,7 @@ def _names(n, cols):
     return out
 
 
-def replay_wrapper(model, n=3, cols=LONG, cls="FlowProperties", frame=False):
+def replay_wrapper(model, n=3, cols=LONG, cls="FlowProperties", frame=False, descending=False):
     import warnings
     import numpy as np
     import pandas as pd
@@ -107,6 +110,8 @@ def replay_wrapper(model, n=3, cols=LONG, cls="FlowProperties", frame=False):
     names = _names(n, cols)
     m = model_floats(model, names, default={k: 1.0 for k in names})
     t = _real_table(m, n, cols)
+    if descending:
+        t = {k: v[::-1].copy() for k, v in t.items()}
     before = {k: v.copy() for k, v in t.items()}
     arg = (pd.DataFrame(t, index=list(range(n - 1, -1, -1))) if frame == "labelled" else pd.DataFrame(t)) if frame else t
     problems = []
@@ -182,19 +187,19 @@ def replay_rescale(model, n=3, frame=True):
 
 # ------------------------------------------------------------------ jobs
 
-def job_wrapper(job, n, cols, cls, frame):
+def job_wrapper(job, n, cols, cls, frame, descending=False):
     mod = _load()
     job.encoded(mod, f"{cls}.__init__")
     job.stub("scipy.interpolate.interp1d: exact piecewise-linear model (searchsorted segment choice, fill values, "
              "bounds_error); warnings.warn: real")
     job.bound(table_rows=n)
-    tab, ps, dom = _table(n, cols, frame=frame)
+    tab, ps, dom = _table(n, cols, frame=frame, descending=descending)
     pi = fresh("pi", pos=True)
     q, q1, q2 = fresh("q"), fresh("q1"), fresh("q2")
     dom = dom + [T.b_le(P(ps[0]), P(q1)), T.b_lt(P(q1), P(q2)), T.b_le(P(q2), P(ps[-1])), T.b_le(P(pi), T.Poly.const(40000))]
     snap = _snapshot(tab)
-    tag = f"{cls}[{('labelled frame' if frame == 'labelled' else 'frame') if frame else 'dict'},{'alpha' if 'alpha' in cols else 'c-mu-z'},N={n}]"
-    rp = (replay_wrapper, {"n": n, "cols": list(cols), "cls": cls, "frame": frame})
+    tag = f"{cls}[{('labelled frame' if frame == 'labelled' else 'frame') if frame else 'dict'},{'alpha' if 'alpha' in cols else 'c-mu-z'},N={n}{',rows listed high to low' if descending else ''}]"
+    rp = (replay_wrapper, {"n": n, "cols": list(cols), "cls": cls, "frame": frame, "descending": descending})
     C = getattr(mod, cls)
     import warnings
 
@@ -227,7 +232,7 @@ def job_wrapper(job, n, cols, cls, frame):
         obj, f1, f2, fi, aq, changed = pr.value
         if changed:
             job.record(f"{tag}/caller's table untouched[path{k}]", "sat", 0.0, note=changed)
-            ok, details = replay_wrapper({}, n=n, cols=cols, cls=cls, frame=frame)
+            ok, details = replay_wrapper({}, n=n, cols=cols, cls=cls, frame=frame, descending=descending)
             job._violation(f"{tag}/caller's table untouched[path{k}]", {}, dict(details, what=changed, replayer="replay_wrapper",
                            replayer_kwargs=rp[1]), None)
         else:
@@ -259,7 +264,9 @@ def job_wrapper(job, n, cols, cls, frame):
             for j in range(n):
                 job.prove(f"{tag}/m_i==1 at node {j}[path{k}]", pr.pc + [T.b_eq(P(pi), P(ps[j])), not_close(obj.m_i, Q(1))],
                           bound=f"{n} rows", replay=rp)
-            pp = tab["pseudopressure"].d
+            pp = list(tab["pseudopressure"].d)
+            if descending:
+                pp.reverse()          # ps is the ascending list of the table's pressures
             for j in range(n - 1):
                 # chord bound of linear interpolation on segment j: m_i <= (a+b)^2/(4ab)
                 a, b = pp[j], pp[j + 1]
@@ -417,6 +424,9 @@ def jobs(tier):
     out.append(("long-frame-3", lambda j: job_wrapper(j, 3, LONG, "FlowProperties", True)))
     out.append(("columns", job_columns))
     out.append(("rescale-frame", lambda j: job_rescale(j, 3, True)))
+    out.append(("long-dict-3-descending", lambda j: job_wrapper(j, 3, LONG, "FlowProperties", False, True)))
+    out.append(("alpha-dict-3-descending", lambda j: job_wrapper(j, 3, SHORT, "FlowProperties", False, True)))
+    out.append(("simple-dict-3-descending", lambda j: job_wrapper(j, 3, ("pressure", "compressibility", "viscosity"), "FlowPropertiesSimple", False, True)))
     out.append(("long-labelled-frame-3", lambda j: job_wrapper(j, 3, LONG, "FlowProperties", "labelled")))
     out.append(("alpha-labelled-frame-3", lambda j: job_wrapper(j, 3, SHORT, "FlowProperties", "labelled")))
     out.append(("rescale-labelled-frame", lambda j: job_rescale(j, 3, "labelled")))
